@@ -625,3 +625,67 @@ def verify_chain_is_finite(ctx, P, pre):
         ctx.ob(pre + ".verify-repeats-once", "%s|add_retransmission#%d" % (f.name, k + 1), ok, f.loc(b),
                "the repeat is scheduled only when the run is not itself a repeat" if ok else
                "a repeated Verify schedules another repeat: the chain never ends while the records stay in the cache")
+
+
+# ------------------------------------------------------------------------------------------------
+def rewritten_probe_restarts(ctx, P, pre):
+    """when a host name loses a conflict, DnsRegistry::update_hostname rewrites the SRV records that point at it — also
+    inside probes that are under way.  Such a probe has to start over (`start_time := probe_time`): its 750 ms window is
+    counted from start_time, and only a restarted probe sends three probes that carry the rewritten record"""
+    f = P.one("DnsRegistry::update_hostname")
+    tp = param_index(f, "probe_time", "u64")
+    ws = []
+    others = []
+    for g in [f] + [P.fns[c] for c in P.closures_of.get(f.name, [])]:
+        tr = tracer(P, g)
+        for b, i, s in g.assigns():
+            pr = s["p"].get("proj") or []
+            if pr and pr[-1][0] == "field" and (pr[-1][4] or "").endswith("Probe"):
+                if pr[-1][2] == "start_time":
+                    ws.append((g, b, i, tr.rvalue(s["r"], (b, i))))
+                else:
+                    others.append((pr[-1][2], g.loc(b, i)))
+    ok = bool(ws) and all(tp is not None and g is f and strip(v) == {("param", tp)} for (g, b, i, v) in ws)
+    ctx.ob(pre + ".rewritten-probe-restarts", f.name, ok, f.loc(),
+           "a probe whose records are rewritten is restarted: start_time := probe_time (%d write(s))" % len(ws) if ok else
+           "update_hostname does not set Probe.start_time to its probe_time for the probes it rewrites (writes to other Probe fields: %s): the "
+           "probe keeps its old deadline and finishes before three probes carried the rewritten record" % (others or "none"))
+
+
+# ------------------------------------------------------------------------------------------------
+def refresh_asks_for_the_due_type(ctx, P, pre):
+    """DnsCache::refresh_due_srv_txt tells the daemon which record types of an instance to ask for again: the type it
+    records under `the SRV records of the instance have a refresh due` is SRV, under the TXT test it is TXT — a due SRV
+    answered with a TXT question is never refreshed and runs out although the responder is alive"""
+    f = P.one("DnsCache::refresh_due_srv_txt")
+    ftr = tracer(P, f)
+    want = {"srv": "SRV", "txt": "TXT"}
+    guards = {}
+    for m in want:
+        guards[m] = guard_edges(P, f, lambda atom, outcome, bb, m=m: atom[0] == "call" and method(strip_generics(atom[1])) == "is_empty" and outcome is False and
+                                expr_mentions_field(atom, m, "DnsCache") and not any(expr_mentions_field(atom, o, "DnsCache") for o in want if o != m))
+    ctx.require(all(guards.values()), pre + ".anchor", f.name + "|due tests", f.loc(), "a `!is_empty()` test per map: %s" % {m: len(v) for m, v in guards.items()})
+    # RRType values written in f, or in a closure handed to a call of f (attributed to that call's block)
+    vals = []
+    for b, i, s in aggregates(f, "dns_parser::RRType"):
+        vals.append((b, s["r"].get("vname"), f.loc(b, i)))
+    for c in P.closures_of.get(f.name, []):
+        cf = P.fns[c]
+        vs = [s["r"].get("vname") for _b, _i, s in aggregates(cf, "dns_parser::RRType")]
+        if not vs:
+            continue
+        for fb, ft in f.calls():
+            if any(x[0] == "closure" and x[1] == cf.name for a in ft["args"] for x in walk(ftr.operand(a, endpos(f, fb)))):
+                for v in vs:
+                    vals.append((fb, v, f.loc(fb)))
+    n = 0
+    bad = []
+    for (b, v, where_) in vals:
+        under = [m for m in want if guards[m] and must_pass_edges(f, b, guards[m])]
+        if len(under) != 1:
+            continue        # not under exactly one of the two tests: not a `due type` record
+        n += 1
+        if v != want[under[0]]:
+            bad.append("RRType::%s recorded at %s under the test on DnsCache.%s" % (v, where_, under[0]))
+    ctx.ob(pre + ".refresh-asks-for-the-due-type", f.name, n >= 2 and not bad, f.loc(),
+           "%d type value(s), each the type of the map whose records are due" % n if not bad else "; ".join(bad))
